@@ -3,6 +3,7 @@ import Pxv.Driver.CG
 import Pxv.Driver.Server
 import Pxv.Driver.Store
 import Pxv.Driver.Session
+import Pxv.Driver.Rules
 open Pxv.Driver
 
 def main (args : List String) : IO UInt32 := do
@@ -12,4 +13,5 @@ def main (args : List String) : IO UInt32 := do
   | ["server"] => serve Pxv.Server.handle; return 0
   | ["store"] => Pxv.Store.serveIO Pxv.Store.handleIO; return 0
   | ["session"] => serve Pxv.Session.handle; return 0
+  | ["rules"] => serve Pxv.Rules.handle; return 0
   | _ => IO.eprintln "usage: pxmodel <model>"; return 2
